@@ -18,3 +18,7 @@ package io
 //@ func LimitWriter
 //@ props C17
 //@ ensures[C17.cap] result != nil && fresh(result) && result.W == w && result.N == limit
+
+// io.Copy (used by os/exec to fill the plugin's output buffers) looks for an io.ReaderFrom on the destination before it
+// falls back to Write: the cap is only enforced if Write is the only way in
+//@ type-methods[C17.writer-methods,C12.writer-methods] internal/io.LimitedWriter: Write
